@@ -16,7 +16,7 @@ import (
 
 func hostileLabels(c *runCtx) []string {
 	r := c.rng
-	out := []string{"utf-8", "a;b\"", "\"", "\\", "a b", "a;b", "x\"y\\z", "käse", "\xff\xfe", "\x00", "a\r\nb", "\x7f", "*", "'", "%41", "a=b", "(c)", "<>", "@", ",", "/", "[]", "?", "{}", "utf-8;q=1", strings.Repeat("x", 4096), "ütf-8", "é", " leading", "trailing ", "\t"}
+	out := []string{"utf-8", "x; charset=y", "a;a=b;a=c", "charset=charset", "; q=1", "a\"; b=\"c", "a;b\"", "\"", "\\", "a b", "a;b", "x\"y\\z", "käse", "\xff\xfe", "\x00", "a\r\nb", "\x7f", "*", "'", "%41", "a=b", "(c)", "<>", "@", ",", "/", "[]", "?", "{}", "utf-8;q=1", strings.Repeat("x", 4096), "ütf-8", "é", " leading", "trailing ", "\t"}
 	for b := 1; b < 256; b++ {
 		out = append(out, string([]byte{byte(b)}))
 	}
@@ -244,7 +244,9 @@ func runC15(c *runCtx) {
 		}
 	}
 	// detection results, including those with quoted / RFC 2231 charset parameters
-	docs := [][]byte{[]byte("plain"), []byte("<html><meta charset=\"x;y\">"), []byte("<html><meta charset=\"k\xc3\xa4se\">"), []byte("<html><meta charset='a b'>"), []byte("<?xml version=\"1.0\" encoding=\"a\\b\"?><a/>"), []byte("{\"a\":1}"), []byte("%PDF-1.4")}
+	docs := [][]byte{[]byte("plain"), []byte("<html><meta charset=\"x;y\">"), []byte("<html><meta charset=\"x; charset=y\">"), []byte("<html><meta charset=\"a;a=b;a=c\">"),
+		[]byte("<html><meta charset='x\"; y=\"z'>"), []byte("<html><meta charset=\";\">"), []byte("<html><meta charset=\"=\">"), []byte("<html><meta charset=\"charset=charset\">"),
+		[]byte("<?xml version=\"1.0\" encoding=\"x; charset=y\"?><a/>"), []byte("<html><meta charset=\"k\xc3\xa4se\">"), []byte("<html><meta charset='a b'>"), []byte("<?xml version=\"1.0\" encoding=\"a\\b\"?><a/>"), []byte("{\"a\":1}"), []byte("%PDF-1.4")}
 	for _, s := range allSeeds(c.rng, "/repo") {
 		docs = append(docs, s.data)
 	}
